@@ -33,6 +33,18 @@ static bool body_inv(const Case &c, Ctx &ctx)
     if (Goldilocks::toU64(al) != Goldilocks::toU64(out)) return ctx.fail("inv with output aliasing the operand differs");
     uint64_t a2 = other_rep(a);
     if (a2 != a) { E t = {a2}; if (Goldilocks::toU64(Goldilocks::inv(t)) != Goldilocks::toU64(out)) return ctx.fail("inv depends on the representative: inv(" + hx(a2) + ") != inv(" + hx(a) + ")"); }
+    // a second inversion of a closely related operand straight after the first (same low word / same high word / neighbour / one bit flipped)
+    if (c.v.size() > 1) {
+        uint64_t m = c.v[1], b;
+        switch (m % 5) { case 0: b = a + 1; break; case 1: b = a ^ ((uint64_t)1 << ((m >> 8) % 64)); break; case 2: b = (a & 0xFFFFFFFFull) | (m & 0xFFFFFFFF00000000ull); break; case 3: b = (a & 0xFFFFFFFF00000000ull) | (m >> 32); break; default: b = ref::sub(0, a % PR); break; }
+        if (b % PR != 0) {
+            ctx.cls("inv:second-call-related-operand");
+            E eb = {b}; E rb = Goldilocks::inv(eb);
+            if (ref::mul(Goldilocks::toU64(rb), b) != 1) return ctx.fail("inv(" + hx(b) + ") called straight after inv(" + hx(a) + ") = " + hx(rb.fe) + ": product with the operand is " + hx(ref::mul(rb.fe, b)));
+            E ra = Goldilocks::inv(ea);
+            if (Goldilocks::toU64(ra) != Goldilocks::toU64(out)) return ctx.fail("inv(" + hx(a) + ") differs when repeated after inv(" + hx(b) + ")");
+        }
+    }
     return true;
 }
 // payload [a, b]
@@ -74,7 +86,7 @@ static std::streambuf *g_cerr_buf = nullptr; // original std::cerr buffer (the p
 // payload [which]: 0 inv(0), 1 inv(p), 2 div(x,0), 3 div(x,p), 4 inv(0) out form; the call must never return
 static bool body_refuse_zero(const Case &c, Ctx &ctx)
 {
-    ctx.nt("refuse:zero-operand");
+    ctx.nt((c.v[0] / 5) % 2 == 1 ? "refuse:zero-operand(first inversion of a fresh process)" : "refuse:zero-operand");
     int which = (int)(c.v[0] % 5);
     char path[64]; snprintf(path, sizeof path, "/dev/shm/pbt_c10_%d", (int)getpid());
     fflush(stdout); fflush(stderr);
@@ -83,6 +95,12 @@ static bool body_refuse_zero(const Case &c, Ctx &ctx)
         int fd = open(path, O_WRONLY | O_CREAT | O_TRUNC, 0600); if (fd >= 0) { dup2(fd, 2); close(fd); }
         signal(SIGALRM, SIG_DFL); alarm(20);
         if (g_cerr_buf) std::cerr.rdbuf(g_cerr_buf);
+        if ((c.v[0] / 5) % 2 == 1) {
+            // a fresh process image: the refused inversion is the very first inversion this process (and thread) makes
+            char w[8], xs[32]; snprintf(w, sizeof w, "%d", which); snprintf(xs, sizeof xs, "%llu", (unsigned long long)(c.v.size() > 1 ? c.v[1] : 5));
+            execl("/proc/self/exe", "h_scalar2", "--refuse-child", w, xs, (char *)nullptr);
+            _exit(0);
+        }
         E z = {which == 1 || which == 3 ? PR : 0}, x = {c.v.size() > 1 ? c.v[1] : 5}, out;
         if (which == 0 || which == 1) out = Goldilocks::inv(z);
         else if (which == 4) Goldilocks::inv(out, z);
@@ -181,7 +199,9 @@ static bool body_to_int(const Case &c, Ctx &ctx)
     std::string want; { uint64_t t = cv; if (!t) want = "0"; while (t) { int d = (int)(t % radix); want.insert(want.begin(), (char)(d < 10 ? '0' + d : 'a' + d - 10)); t /= radix; } }
     std::string got = Goldilocks::toString(e, radix);
     if (got != want) return ctx.fail("toString(" + hx(v) + ", radix " + std::to_string(radix) + ") = '" + got + "' want '" + want + "'");
-    std::string g2; Goldilocks::toString(g2, e, radix); if (g2 != want) return ctx.fail("toString out form");
+    // output-parameter form: the destination string is reused by callers, so it is NOT empty before the call
+    std::string g2 = (c.v[2] & 0x40) ? std::string() : std::string("previous contents 123"); Goldilocks::toString(g2, e, radix);
+    if (g2 != want) return ctx.fail("toString(std::string&, ...) with a " + std::string((c.v[2] & 0x40) ? "empty" : "non-empty") + " destination string gives '" + g2 + "' want '" + want + "'");
     if (radix == 10 && Goldilocks::toString(e) != want) return ctx.fail("toString default radix");
     // string round trip
     if (Goldilocks::toU64(Goldilocks::fromString(got, radix)) != cv) return ctx.fail("fromString(toString(v)) != v");
@@ -259,15 +279,25 @@ static rc::Gen<std::vector<uint64_t>> gen_big()
 int main(int argc, char **argv)
 {
     // the library writes a diagnostic to stderr for every refused toS32: keep the logs small
+    if (argc >= 4 && std::string(argv[1]) == "--refuse-child") {
+        // re-executed by body_refuse_zero: nothing else has run in this process; the call must not return
+        int which = atoi(argv[2]); uint64_t xv = strtoull(argv[3], nullptr, 10);
+        E z = {which == 1 || which == 3 ? PR : 0}, x = {xv}, out;
+        if (which == 0 || which == 1) out = Goldilocks::inv(z);
+        else if (which == 4) Goldilocks::inv(out, z);
+        else out = Goldilocks::div(x, z);
+        fprintf(stderr, "RETURNED %llx\n", (unsigned long long)out.fe); fflush(stderr);
+        _exit(0);
+    }
     static std::ofstream devnull("/dev/null");
     g_cerr_buf = std::cerr.rdbuf(devnull.rdbuf());
     std::vector<pbt::PropDef> props = {
-        {"c10.inv", [] { return rc::gen::map(gen_euclid(), [](uint64_t a) { return std::vector<uint64_t>{a}; }); }, body_inv, 4, false, desc_simple, 100},
+        {"c10.inv", [] { return rc::gen::apply([](uint64_t a, uint64_t m) { return std::vector<uint64_t>{a, m}; }, gen_euclid(), g::uni64()); }, body_inv, 4, false, desc_simple, 100},
         {"c10.div", [] { return rc::gen::apply([](uint64_t a, uint64_t b) { return std::vector<uint64_t>{a, b}; }, g::fe(), gen_euclid()); }, body_div, 2, false, desc_simple, 100},
         {"c10.exp", [] { return rc::gen::apply([](uint64_t b, uint64_t e) { return std::vector<uint64_t>{b, e}; }, g::fe(),
                                                 rc::gen::weightedOneOf<uint64_t>({{2, g::elem({0, 1, 2, 3, PR - 1, PR - 2, PR, UINT64_MAX, UINT64_MAX - 1, 7, 0x100000000ull})}, {2, rc::gen::map(g::irange(0, 63), [](int k) { return (uint64_t)1 << k; })},
                                                                                   {1, rc::gen::map(g::irange(1, 64), [](int k) { return (uint64_t)(k == 64 ? UINT64_MAX : ((uint64_t)1 << k) - 1); })}, {3, g::uni64()}, {1, g::range(0, 300)}})); }, body_exp, 2, false, desc_simple, 100},
-        {"c10.refuse_zero", [] { return rc::gen::apply([](int w, uint64_t x) { return std::vector<uint64_t>{(uint64_t)w, x}; }, g::irange(0, 4), g::fe()); }, body_refuse_zero, 0.002, false, desc_simple, 100},
+        {"c10.refuse_zero", [] { return rc::gen::apply([](int w, uint64_t x) { return std::vector<uint64_t>{(uint64_t)w, x}; }, g::irange(0, 9), g::fe()); }, body_refuse_zero, 0.002, false, desc_simple, 100},
         {"c15.from_int", [] { return rc::gen::apply([](uint64_t x, int w) { return std::vector<uint64_t>{x, (uint64_t)w}; },
                                                      rc::gen::weightedOneOf<uint64_t>({{3, g::fe()}, {2, g::elem({(uint64_t)INT64_MIN, (uint64_t)INT64_MAX, (uint64_t)INT64_MIN + 1, (uint64_t)(int64_t)INT32_MIN, (uint64_t)(int64_t)INT32_MAX, 0x80000000ull, 0x7FFFFFFFull, (uint64_t)-1, (uint64_t)-2, (PR - 1) / 2, (PR - 1) / 2 + 1, (uint64_t)0 - (PR - 1) / 2, (uint64_t)0 - (PR - 1) / 2 - 1, (uint64_t)0 - (PR - 1) / 2 + 1})},
                                                                                        {1, g::delta(0x80000000ull, 3)}, {1, g::delta(0xFFFFFFFF80000000ull, 3)}, {1, g::delta((uint64_t)0 - (PR - 1) / 2, 3)}, {1, g::range(0, 0xFFFFFFFFull)}}), g::irange(0, 2)); }, body_from_int, 3, false, desc_simple, 100},
